@@ -511,6 +511,12 @@ fn layout_attrs(items: Vec<String>, layout: Layout, indent: &str, syntax: &[Stri
         return String::new();
     }
     let tc = if syntax.iter().any(|x| x == "trailing-commas") { "," } else { "" };
+    // the nested props(..) list ends with a comma too (the usual one-entry-per-line layout)
+    let items: Vec<String> = if tc.is_empty() {
+        items
+    } else {
+        items.into_iter().map(|i| if i.starts_with("props(") && i.ends_with(')') && i.len() > 7 { format!("{},)", &i[..i.len() - 1]) } else { i }).collect()
+    };
     let wrap = |inner: String| -> String {
         if syntax.iter().any(|x| x == "cfg_attr") {
             format!("{}#[cfg_attr(all(), strum({}{}))]\n", indent, inner, tc)
